@@ -17,6 +17,8 @@ from fractions import Fraction
 
 import numpy as np
 
+from pwlib.share import shcopy
+
 from pwlib.canon import err_name
 
 F = Fraction
@@ -28,7 +30,7 @@ F = Fraction
 def call_step(obj, st):
     k = st[0]
     if k == "translate":
-        return obj.translate(np.array(st[1], dtype=np.float64))
+        return obj.translate(shcopy(np.array(st[1], dtype=np.float64)))
     if k == "uniform_scale":
         return obj.uniform_scale(st[1], allow_flipping=st[2])
     if k == "non_uniform_scale":
@@ -38,16 +40,16 @@ def call_step(obj, st):
     if k == "flip":
         return obj.flip(st[1])
     if k == "rotate":
-        return obj.rotate(np.array(st[1], dtype=np.float64))
+        return obj.rotate(shcopy(np.array(st[1], dtype=np.float64)))
     if k == "rodrigues":
-        return obj.rotate(np.array(st[1], dtype=np.float64))
+        return obj.rotate(shcopy(np.array(st[1], dtype=np.float64)))
     if k == "reorient":
-        return obj.reorient(up=np.array(st[1], dtype=np.float64), look=np.array(st[2], dtype=np.float64))
+        return obj.reorient(up=shcopy(np.array(st[1], dtype=np.float64)), look=shcopy(np.array(st[2], dtype=np.float64)))
     if k == "append":
-        fwd = np.array(st[1], dtype=np.float64)
+        fwd = shcopy(np.array(st[1], dtype=np.float64))
         if st[2] is None:
             return obj.append_transform(fwd)
-        return obj.append_transform(fwd, np.array(st[2], dtype=np.float64))
+        return obj.append_transform(fwd, shcopy(np.array(st[2], dtype=np.float64)))
     raise ValueError("unknown step %r" % (k,))
 
 
